@@ -168,8 +168,9 @@ def run(ctx):
         t = f.blocks[sw]["term"]
         exits = []
         for v, tgt in t["cases"] + [["otherwise", t["otherwise"]]]:
+            if f.blocks[tgt]["term"]["t"] == "unreachable":
+                continue
             r = cfg.reachable(f, tgt)
-            leaves_without_loop = eb not in cfg.reachable(f, tgt, avoid=set())  # can it come back to the encoder call?
             if eb not in r:
                 exits.append(v)
         ctx.check(exits == [0], "REPL", "loop exit arms", "only the InputEmpty arm leaves the loop",
